@@ -15,7 +15,7 @@ for a in "$@"; do
   esac
 done
 DRV="$VERIF/driver/target/debug/uecfacts"
-if [ ! -x "$DRV" ]; then
+if [ ! -x "$DRV" ] || [ -n "$(find "$VERIF/driver/src" "$VERIF/driver/Cargo.toml" -newer "$DRV" 2>/dev/null | head -1)" ]; then
   (cd "$VERIF/driver" && CARGO_NET_OFFLINE=true cargo build --offline >/dev/null 2>&1) || { echo "extract: driver build failed" >&2; exit 2; }
 fi
 TARGET="${UEC_TARGET_DIR:-$VERIF/.work/target}"
